@@ -1608,9 +1608,11 @@ fn generate_expression(
             context.get_variable_name(*v)?,
         )),
         ir::Expression::MemberVariable(id, member_index) => {
-            let member_def =
-                &context.module.struct_registry[id.0 as usize].members[*member_index as usize];
-            ast::Expression::Identifier(ast::ScopedIdentifier::trivial(&member_def.name))
+            let member_name =
+                context
+                    .name_map
+                    .get_struct_member_name(context.module, *id, *member_index);
+            ast::Expression::Identifier(ast::ScopedIdentifier::trivial(member_name))
         }
         ir::Expression::Global(v) => ast::Expression::Identifier(scoped_name_to_identifier(
             context.get_global_name_full(*v)?,
@@ -1724,11 +1726,13 @@ fn generate_expression(
             ast::Expression::SizeOf(Box::new(ast::ExpressionOrType::Type(ty)))
         }
         ir::Expression::StructMember(expr, id, member_index) => {
-            let member_def =
-                &context.module.struct_registry[id.0 as usize].members[*member_index as usize];
             let object = generate_expression(expr, context)?;
             let object = Box::new(Located::none(object));
-            ast::Expression::Member(object, ast::ScopedIdentifier::trivial(&member_def.name))
+            let member_name =
+                context
+                    .name_map
+                    .get_struct_member_name(context.module, *id, *member_index);
+            ast::Expression::Member(object, ast::ScopedIdentifier::trivial(member_name))
         }
         ir::Expression::ObjectMember(expr, name) => {
             let object = generate_expression(expr, context)?;
@@ -2313,7 +2317,11 @@ fn generate_struct(
 ) -> Result<ast::StructDefinition, GenerateError> {
     let mut members = Vec::new();
 
-    for member in &decl.members {
+    for (member_index, member) in decl.members.iter().enumerate() {
+        let member_name = context
+            .name_map
+            .get_struct_member_name(context.module, decl.id, member_index as u32)
+            .to_string();
         let precise_modifier = if member.precise {
             Some(ast::TypeModifier::Precise)
         } else {
@@ -2324,7 +2332,7 @@ fn generate_struct(
             generate_interpolation_modifier(&member.interpolation_modifier)?;
 
         let (base, declarator) =
-            generate_type_and_declarator(member.type_id, &member.name, true, context)?;
+            generate_type_and_declarator(member.type_id, &member_name, true, context)?;
 
         // Combine type with modifiers
         let base_with_interp = prepend_modifiers(base, &interpolation_modifier);
@@ -2585,14 +2593,14 @@ impl<'m> GenerateContext<'m> {
 
     /// Get the name of an enum value
     fn get_enum_value_name(&self, id: ir::EnumValueId) -> Result<&str, GenerateError> {
-        Ok(&self.module.enum_registry.get_enum_value(id).name)
+        Ok(self.name_map.get_enum_value_name(self.module, id))
     }
 
     /// Get the full name of an enum value
     fn get_enum_value_name_full(&self, id: ir::EnumValueId) -> Result<ScopedName, GenerateError> {
         let value = self.module.enum_registry.get_enum_value(id);
         let mut name = self.get_enum_name_full(value.enum_id).unwrap();
-        name.0.push(value.name.node.clone());
+        name.0.push(self.get_enum_value_name(id)?.to_string());
         Ok(name)
     }
 
